@@ -9,7 +9,7 @@ PROPS = "Props/C01.v"
 THEOREMS = ["C01_ranges_overlap_sorted_iff", "C01_enum_ranges_overlap_sorted_iff", "C01_cross_overlap_iff",
             "C01_tag_in_range_iff", "C01_enum_number_in_range_iff", "C01_check_tag_iff", "C01_range_bounds_iff",
             "C01_validate_message_iff", "C01_validate_enum_iff", "C01_validate_field_iff", "C01_validate_basic_iff", "C01_extension_range_lookup_iff", "C01_json_compliant_iff",
-            "C01_protoc_json_compliant_iff", "C01_json_go_eq_protoc_compliant", "C01_json_go_stricter_proto2"]
+            "C01_protoc_json_compliant_iff", "C01_json_go_eq_protoc_compliant", "C01_json_go_stricter_proto2", "C01_reserved_names_iff"]
 AXIOMS_OK = []
 TRUSTED = [
     "protoc is not available: the oracle is the Coq specification Model/ValiditySpec.v + Model/SpecOracle.v, transcribed from the language "
